@@ -136,7 +136,8 @@ pub fn check_expect(expect: &Expect, bytes: &[u8], res: &Res, footer_unparsed: &
         (Expect::Reject(why), Res::Ok(_)) => out.push(("reject", why.clone(), format!("malformed file ({why}) accepted: {}", res.brief()))),
         (Expect::Reject(_), Res::ErrTz(_)) => {}
         (Expect::CorpusOk, Res::ErrTz(e)) => out.push(("reference_decoder", "iana-file-refused".into(), format!("well-formed IANA file refused: {e}"))),
-        (Expect::CorpusOk, Res::Ok(r)) | (Expect::Unknown, Res::Ok(r)) => {
+        (Expect::WellFormed, Res::ErrTz(e)) => out.push(("fidelity", "well-formed-refused".into(), format!("generated file that is well-formed by the independent model (footer rule consistent with the last transition) refused: {e}"))),
+        (Expect::CorpusOk, Res::Ok(r)) | (Expect::Unknown, Res::Ok(r)) | (Expect::WellFormed, Res::Ok(r)) => {
             if let Err(m) = ref_matches(r, bytes, footer_unparsed) {
                 out.push(("reference_decoder", "disagrees-with-reference".into(), m));
             }
